@@ -1,9 +1,10 @@
 /* C08, tier B: handle_arglist with hasequal == 1 (--list=TEXT): the list is TEXT split into words
  * (a quoted stretch is one word), NULL-terminated, and nothing is written outside the allocation.
- * The loop's trip count comes from three functions of strings.c (num_words / get_word / get_pword),
- * so this is checked by executing the REAL strings.c on a fixed set of TEXTs:
+ * The loop's trip count comes from functions of strings.c (num_words / get_word), so this is checked
+ * by executing the REAL strings.c on a fixed set of TEXTs:
  *   arglist_eq.plain   TEXTs without quotes: "a", "a b", " a  b ", "ab c d"
- *   arglist_eq.quoted  TEXTs with a quoted stretch or empty: "a \"b c\"", "'a b' c", ""   (known finding)
+ *   arglist_eq.quoted  TEXTs with a quoted stretch or empty: "a \"b c\"", "'a b' c", ""
+ *                      (these overflowed the list before fix C08-arglist-eq-overflow)
  * Bound: exactly these texts; 1-entry table; the result is compared with the expected word list. */
 
 /*@unit
